@@ -194,7 +194,7 @@ def ANY_ADDRESS : String := "ANY_ADDRESS"
 def NO_ADDRESS : String := "NO_ADDRESS"
 def SOME_ADDRESS : String := "SOME_ADDRESS"
 def CREATOR_ADDRESS : String := "CREATOR_ADDRESS"
-def ZERO_ADDRESS : String := "AAAAAAAAAAAAAAAAAAAAAAAAAAAAAAAAAAAAAAAAAAAAAAAAAAAAY5HFKQ"
+def ZERO_ADDRESS : String := "AAAAAAAAAAAAAAAAAAAAAAAAAAAAAAAAAAAAAAAAAAAAEVAL4QAJS7JHB4"
 
 def addrUniv : AddrSet := [ANY_ADDRESS]
 def addrNull : AddrSet := [NO_ADDRESS]
